@@ -142,7 +142,18 @@ fn x86_plain(rng: &mut Rng, m64: bool) -> Vec<u8> {
     let w = m64 && rng.chance(1, 3);
     let d = x86_dst(rng, m64);
     let s = x86_src(rng, m64);
-    match rng.below(17) {
+    match rng.below(19) {
+        // direction flag and string instructions: what a string instruction does depends on a flag set by an
+        // earlier instruction, possibly of another block that shares it
+        17 => vec![if rng.bool() { 0xfc } else { 0xfd }],
+        18 => match rng.below(6) {
+            0 => vec![0xa4],
+            1 => vec![0xaa],
+            2 => vec![0xac],
+            3 => vec![0xae],
+            4 => vec![0xab],
+            _ => vec![0xa5],
+        },
         0 => {
             let mut v = Vec::new();
             if d >= 8 {
@@ -759,7 +770,9 @@ fn gen_program(rng: &mut Rng, arch: &'static str, thorough: bool, tr: &dyn Trans
         // a never-taken manual edge between arbitrary instructions: only splits blocks
         let h = pick_nonslot(rng, &items);
         let t = pick_nonslot(rng, &items);
-        if items[h].ctl != Ctl::Indirect && t != indirect_target && !manual.iter().any(|m| m.0 == h) {
+        // (not at a return or call: their Branch stays in the function exactly when a manual edge names its target,
+        // and a decoy's tail could be a direct call's target)
+        if items[h].ctl != Ctl::Indirect && items[h].ctl != Ctl::End && t != indirect_target && !manual.iter().any(|m| m.0 == h) {
             manual.push((h, t, true));
             tags.insert("manual_decoy");
         }
@@ -1138,7 +1151,7 @@ impl C06 {
         ctx.trace(|| format!("{} base={:x} entry={:x} bytes={}", arch, p.base, entry_addr, hex(&p.bytes)));
         // ---- lift the function
         let endian = if big_endian_data(arch) { Endian::Big } else { Endian::Little };
-        let mut memory = Memory::new(endian);
+        let mut memory = Memory::new(endian.clone());
         if p.bytes.len() >= 2 && rng.chance(1, 3) {
             // the image as two adjacent sections (an instruction, or a translation window, may straddle them)
             let cut = 1 + rng.usize(p.bytes.len() - 1);
@@ -1167,7 +1180,43 @@ impl C06 {
                 "manual_edges": p.manual.iter().map(|m| format!("0x{:x}->0x{:x}{}", p.addrs[m.0], p.addrs[m.1], if m.2 {" if jreg==tail"} else {""})).collect::<Vec<_>>(),
                 "jreg": format!("{}=0x{:x}", jreg(p.arch), p.addrs[p.indirect_target]), "items": p.items.len()})
         };
-        let lifted = guard(|| tr.translate_function_extended(&memory, entry_addr, &options));
+        // One program in four is lifted from the executor's memory instead (a paged memory over a backing, the other
+        // implementor of TranslationMemory): the backing holds the image with stretches of stale bytes, the right
+        // bytes of those stretches are stored on top (patched code), at random places including stretches that start
+        // exactly at a 1024-byte page boundary while the page before is never stored to.
+        let patched: Option<falcon::executor::Memory> = if rng.chance(1, 4) {
+            let mut stale = p.bytes.clone();
+            let mut patches: Vec<(usize, usize)> = Vec::new();
+            for _ in 0..1 + rng.usize(3) {
+                let start = if rng.bool() {
+                    // the first image byte that lies on a page boundary, if any
+                    (0..p.bytes.len()).find(|k| (p.base + *k as u64) % 1024 == 0).unwrap_or_else(|| rng.usize(p.bytes.len()))
+                } else {
+                    rng.usize(p.bytes.len())
+                };
+                let len = (1 + rng.usize(24)).min(p.bytes.len() - start);
+                for k in start..start + len {
+                    stale[k] = stale[k].wrapping_add(1 + rng.below(255) as u8);
+                }
+                patches.push((start, len));
+            }
+            let mut b = Memory::new(endian.clone());
+            b.set_memory(p.base, stale, MemoryPermissions::READ | MemoryPermissions::EXECUTE);
+            let mut m = falcon::executor::Memory::new_with_backing(endian.clone(), falcon::RC::new(b));
+            for (start, len) in &patches {
+                for k in *start..*start + *len {
+                    m.store(p.base + k as u64, il::const_(p.bytes[k] as u64, 8)).unwrap();
+                }
+            }
+            ctx.count("images_in_executor_memory_with_patched_stretches");
+            Some(m)
+        } else {
+            None
+        };
+        let lifted = match &patched {
+            Some(m) => guard(|| tr.translate_function_extended(m, entry_addr, &options)),
+            None => guard(|| tr.translate_function_extended(&memory, entry_addr, &options)),
+        };
         ctx.eval();
         let function = match lifted {
             Err(pi) => {
